@@ -7,7 +7,7 @@ verus! {
 //@include prelude/core.rs
 //@include prelude/fjall_types.rs
 //@include prelude/paths.rs
-//@world db.write_tx tx.fetch_update tx.update_fetch tx.insert tx.remove tx.remove_weak tx.commit
+//@world inner.insert inner.remove inner.remove_weak db.write_tx tx.fetch_update tx.update_fetch tx.insert tx.remove tx.remove_weak tx.commit
 
 // ---- ghost world: the transactions this call ran, in order
 pub enum OpG { Insert, Remove, RemoveWeak, FetchUpdate, UpdateFetch }
@@ -16,6 +16,19 @@ pub struct World { pub txs: Seq<TxG> }
 pub open spec fn last(w: World) -> TxG { w.txs.last() }
 pub open spec fn upd_last(w: World, t: TxG) -> World { World { txs: w.txs.drop_last().push(t) } }
 pub struct Keyspace { pub id: InternalKeyspaceId }
+impl Keyspace {
+    // the plain (non-transactional) write paths of the inner keyspace: journaled and applied, but NOT a transaction of the
+    // optimistic database -- nothing is validated and nothing is registered with the oracle for other transactions to see
+    #[verifier::external_body]
+    pub fn insert<K: Into<UserKey>, V: Into<UserValue>>(&self, key: K, value: V, Tracked(w): Tracked<&mut World>) -> (r: Result<(), Error>)
+        ensures *final(w) == *old(w) { unimplemented!() }
+    #[verifier::external_body]
+    pub fn remove<K: Into<UserKey>>(&self, key: K, Tracked(w): Tracked<&mut World>) -> (r: Result<(), Error>)
+        ensures *final(w) == *old(w) { unimplemented!() }
+    #[verifier::external_body]
+    pub fn remove_weak<K: Into<UserKey>>(&self, key: K, Tracked(w): Tracked<&mut World>) -> (r: Result<(), Error>)
+        ensures *final(w) == *old(w) { unimplemented!() }
+}
 pub struct Conflict;
 #[verifier::external]
 impl std::fmt::Debug for Conflict { fn fmt(&self, f: &mut std::fmt::Formatter<'_>) -> std::fmt::Result { unimplemented!() } }
